@@ -8,14 +8,15 @@
        position left out - so any valid tie-break is accepted and nothing else;
      * the stored observations are the rows of fit followed by the rows of every later partial_fit, aligned;
      * an empty neighbourhood returns the stored NaN dictionary, and predict issues exactly one
-       choice(len(arms), p=no_nhood_prob_of_arm) request on the row generator and returns that arm;
+       choice(len(arms), p=no_nhood_prob_of_arm) request on the row generator and returns that arm - unless a given probability list no longer
+       has one entry per arm (after add_arm / remove_arm: finding D24), in which case predict raises;
      * for a non-empty neighbourhood the expectations are those of a FRESHLY CONSTRUCTED learning policy
        trained on exactly the selected observations (context-free policies other than Thompson Sampling; for
        Thompson Sampling the same holds up to the unused stored sample, see NbrIndep.fit_query_indep).
      * linear learning policies: the row's answer is that of [lin_strip c], the constructor's state keeping only the private
        generator copies (never read by LinGreedy / LinUCB), trained on the selected observations (nn_row_from_scratch_linear). *)
 From Coq Require Import List ZArith Bool Arith QArith Qcanon Permutation.
-From MW Require Import Num Assoc AssocFacts Rng Par CF CFInv CFClean CFForget CFSpec Matrix Lin Warm WarmInv Nbr NbrFacts NbrIndep LshFacts Clu Tree CellFacts Mab FacadeCF FacadeArms MoreFacts NumLaws CFAlg Sim Extra QcInst OrderFacts ExpIrrel LinInv FacadeLin LpInv NbrInv CluTreeInv FacadeAll ToyFacts C09All C10All LinForget LinSim MatrixFacts GaussJordan LinSpec NbrIndepGen CluIndep C17Lin WarmIdem.
+From MW Require Import Num Assoc AssocFacts Rng Par CF CFInv CFClean CFForget CFSpec Matrix Lin Warm WarmInv Nbr NbrFacts NbrIndep LshFacts Clu Tree CellFacts Mab FacadeCF FacadeArms MoreFacts NumLaws CFAlg Sim Extra QcInst OrderFacts ExpIrrel LinInv FacadeLin LpInv NbrInv CluTreeInv FacadeAll ToyFacts C09All C10All LinForget LinSim MatrixFacts GaussJordan LinSpec NbrIndepGen CluIndep C17Lin WarmIdem C14More LshScale TreeLeaf Rename PopSpec CopyFacts StatFacts CluBatch LinWarm.
 Import ListNotations.
 
 Theorem C03_radius_neighbourhood_is_closed_ball :
@@ -62,7 +63,8 @@ Theorem C03_empty_neighbourhood :
     (s : (@nbr R A G)) (l : (@lp R A G)) (seed : Z) (row : list R) (orc : list nat),
   neighborhood N s row orc = Some [] ->
   (exists r : (@lp R A G), nbr_row N aeqb RG s l seed row orc false = Some (inr (n_exp s), r)) /\
-  (exists (a : option A) (r : (@lp R A G)),
+  (nnprob_len_ok s = true ->
+   exists (a : option A) (r : (@lp R A G)),
      nbr_row N aeqb RG s l seed row orc true = Some (inl a, r) /\
      a =
      nth_error (n_arms s)
@@ -70,7 +72,7 @@ Theorem C03_empty_neighbourhood :
           match fst (draw_z RG (create RG seed) (RqChoice (length (n_arms s)) (n_nnprob s))) with
           | [] => 0
           | x :: _ => x
-          end)).
+          end)) /\ (nnprob_len_ok s = false -> nbr_row N aeqb RG s l seed row orc true = None).
 Proof. exact @empty_neighbourhood. Qed.
 Print Assumptions C03_empty_neighbourhood.
 
